@@ -157,6 +157,17 @@ def facts(fn, b):
     return out
 
 
+def simplify(x):
+    """field i of a tuple built in place is its i-th element; references are transparent"""
+    x = _unref(x)
+    if not isinstance(x, tuple) or not x:
+        return x
+    t2 = tuple([x[0]] + [simplify(y) if isinstance(y, tuple) else y for y in x[1:]])
+    if t2[0] == 'field' and len(t2) == 3 and isinstance(t2[1], tuple) and t2[1] and t2[1][0] == 'tuple' and str(t2[2]).isdigit() and int(t2[2]) + 1 < len(t2[1]):
+        return t2[1][int(t2[2]) + 1]
+    return t2
+
+
 def _unref(x):
     while isinstance(x, tuple) and x and x[0] in ('ref', 'deref', 'copy', 'move') and len(x) >= 2:
         x = x[-1]
@@ -226,7 +237,7 @@ class VariantExplorer:
         return None
 
     def decide(self, x, v):
-        x = _unref(x)
+        x = simplify(x)
         if not isinstance(x, tuple) or not x:
             return None
         if x[0] == 'discr' and self.is_subject(_unref(x[1])):
